@@ -293,7 +293,7 @@ func (r *Run) c05Scenario(trans string, v int, k int, npk int) {
 func runC05(r *Run) {
 	installHooks()
 	g := r.rng
-	r.st.Rule = "scripted peer over TCP and WebSocket (v1 and v2): k in 1..8 concurrent calls outstanding, then a random list of packets — answers in any order, statuses 0..255 with error bodies (valid control.Error, code 0, empty, garbage), AUTH-command responses, duplicate/stale/unknown ids, pushes, peer requests whose id collides with an outstanding call, heartbeat responses — each awaited before the next; unanswered calls time out. The history is replayed by Model/Waiters.v and every call's result and the no-receiver/duplicate/unsupported log counts are compared; direct oracle: a returned packet carries the call's own id. All 256 status codes are covered by a dedicated sweep, on connections that negotiated protobuf and on connections that negotiated the JSON codec (error body decoded accordingly). A call answered twice in one burst is followed by a call that must get its own answer. A returned packet must be a response frame. distinct = distinct request lines"
+	r.st.Rule = "scripted peer over TCP and WebSocket (v1 and v2): k in 1..8 concurrent calls outstanding, then a random list of packets — answers in any order, statuses 0..255 with error bodies (valid control.Error, code 0, empty, garbage), AUTH-command responses, duplicate/stale/unknown ids, pushes, peer requests whose id collides with an outstanding call, heartbeat responses — each awaited before the next; unanswered calls time out. The history is replayed by Model/Waiters.v and every call's result and the no-receiver/duplicate/unsupported log counts are compared; direct oracle: a returned packet carries the call's own id. All 256 status codes are covered by a dedicated sweep, on connections that negotiated protobuf and on connections that negotiated the JSON codec (error body decoded accordingly). A call answered twice in one burst is followed by a call that must get its own answer. A returned packet must be a response frame. Error bodies that decode only partially and JSON bodies with unknown members are in the sweep; a stale answer arriving on a connection the keepalive has replaced must not reach a call on the new one. distinct = distinct request lines"
 	n := 10
 	if r.thorough() {
 		n = 120
@@ -593,7 +593,7 @@ func (r *Run) c07AfterRecovery() {
 
 func runC07(r *Run) {
 	installHooks()
-	r.st.Rule = "the three relative orders of {request handed to transport, waiter registered, response dispatched} that the code can produce are forced with the do.after-write hook: callers parked right after the write while the peer answers (response dispatched before the caller starts waiting), and the ordinary order; 1..8 concurrent callers, answers in reverse order, TCP and WebSocket; each call must return its response; history replayed by Model/Waiters.v. A response read and queued behind a push whose handler is still busy when the peer drops the connection must be returned (TCP and WebSocket). distinct = distinct request lines"
+	r.st.Rule = "the three relative orders of {request handed to transport, waiter registered, response dispatched} that the code can produce are forced with the do.after-write hook: callers parked right after the write while the peer answers (response dispatched before the caller starts waiting), and the ordinary order; 1..8 concurrent callers, answers in reverse order, TCP and WebSocket; each call must return its response; history replayed by Model/Waiters.v. A response read and queued behind a push whose handler is still busy when the peer drops the connection must be returned (TCP and WebSocket). Also: answers carried in WebSocket text messages; bursts of answers behind a busy handler with a small write queue / large read queue. distinct = distinct request lines"
 	ks := []int{1, 2, 5, 8}
 	if r.thorough() {
 		ks = []int{1, 2, 3, 4, 5, 6, 7, 8}
